@@ -46,6 +46,36 @@ pub fn search_c17(r: &mut Report, tier: &str) {
             if r.failures > 0 { return; }
         }
     }
+    search_c17_map(r, tier);
+}
+
+/// C17 for Map<u8, MVReg>: Err exactly when some dot witnesses DIFFERENT keys on the two sides (MVReg values never flag)
+pub fn search_c17_map(r: &mut Report, tier: &str) {
+    let depth = if tier == "thorough" { 4 } else { 3 };
+    let sts = crate::c05::map_states(depth);
+    r.bound.push_str(&format!("; Map<u8, MVReg>: all ordered pairs of states reached by <= {} steps, plus clones that spend one actor's next dot on different keys", depth));
+    type MM = crdts::Map<u8, MVReg<u8, u8>, u8>;
+    let ec = |m: &MM, k: u8| -> BTreeMap<u8, u64> { m.get(&k).rm_clock.dots.clone() };
+    let flagged = |a: &MM, b: &MM| -> bool {
+        (0..3u8).any(|k| (0..3u8).any(|k2| k != k2 && ec(a, k).iter().any(|(act, n)| ec(b, k2).get(act) == Some(n))))
+    };
+    for (a, da) in &sts { for (b, db) in &sts {
+        let want = flagged(a, b); let got = a.validate_merge(b).is_err();
+        r.case("map.validate_merge_verdict", got == want, &|| format!("[{}] vs [{}]", da, db), &|| format!("got Err={} want Err={}", got, want));
+        if r.failures > 0 { return; }
+    } }
+    for (a, da) in sts.iter().take(600) {
+        for k in 0..2u8 {
+            let mut x = a.clone(); let mut y = a.clone();
+            let ox = x.update(k, x.read_ctx().derive_add_ctx(1), |reg, c| reg.write(7, c)); x.apply(ox);
+            let oy = y.update(1 - k, y.read_ctx().derive_add_ctx(1), |reg, c| reg.write(8, c)); y.apply(oy);
+            for (p, q) in [(&x, &y), (&y, &x)] {
+                let want = flagged(p, q); let got = p.validate_merge(q).is_err();
+                r.case("map.validate_merge_double_spend", got == want, &|| format!("[{}] then actor 1 updates key {} on one clone and key {} on the other", da, k, 1 - k), &|| format!("got Err={} want Err={}", got, want));
+            }
+            if r.failures > 0 { return; }
+        }
+    }
 }
 
 /// C18: reset_remove(c) forgets exactly the dots c covers: witnesses, membership, replica clock; nothing else
